@@ -16,15 +16,15 @@ CONSTANTS
   MinLinks = 1
   Canonical = TRUE
   AcyclicOnly = TRUE
-  Tight = TRUE
+  Tight = FALSE
   ModuleActs = {"mul"}
   ModuleActs2 = {"max"}
   MaxMods = 2
   InsSizes = {1}
   OutArities = {0, 1, 2}
   SensorIns = TRUE
-  FwdKs = {1, 2}
-  ActKs = {2}
+  FwdKs = {0, 1, 2}
+  ActKs = {0, 2}
   Act0Ks = {}
   UseRec = FALSE
   LoadFirst = TRUE
